@@ -95,7 +95,7 @@ def coq_project():
             raise RuntimeError('coq_makefile failed:\n' + out)
 
 
-def build(targets=None, timeout=3000):
+def build(targets=None, timeout=3000, keep_going=False):
     """regenerate Gen, then build the given .vo targets (paths relative to /verif) or everything.
     Returns (ok, log, gen_status)."""
     with BuildLock():
@@ -105,7 +105,7 @@ def build(targets=None, timeout=3000):
         missing = [t for t in (targets or []) if not os.path.exists(os.path.join(VERIF, t[:-1]))]
         if missing:
             return False, 'missing source for target(s): %s' % ' '.join(missing), gen_status
-        rc, out = sh('make -f Makefile.coq -j%d %s' % (NCPU, tg), cwd=VERIF, timeout=timeout)
+        rc, out = sh('make -f Makefile.coq -j%d %s %s' % (NCPU, '-k' if keep_going else '', tg), cwd=VERIF, timeout=timeout)
         return rc == 0, out, gen_status
 
 
